@@ -202,6 +202,22 @@ pub(crate) struct IceTransportInner {
     upnp_refresh_in_progress: std::sync::atomic::AtomicBool,
 }
 
+impl IceTransportInner {
+    /// Closed is final for everything but an explicit start(): a connectivity check, keep-alive or
+    /// timer that completes after stop() must not bring the transport back to life (its sockets
+    /// have been released and nobody would stop it again).
+    fn set_state_unless_closed(&self, new: IceTransportState) {
+        self.state.send_if_modified(|s| {
+            if *s == IceTransportState::Closed {
+                false
+            } else {
+                *s = new;
+                true
+            }
+        });
+    }
+}
+
 impl std::fmt::Debug for IceTransportInner {
     fn fmt(&self, f: &mut std::fmt::Formatter<'_>) -> std::fmt::Result {
         f.debug_struct("IceTransportInner")
@@ -652,13 +668,13 @@ impl IceTransportRunner {
                     inner.config.ice_disconnect_threshold
                 };
                 if elapsed > ice_conn_timeout {
-                    let _ = inner.state.send(IceTransportState::Failed);
+                    inner.set_state_unless_closed(IceTransportState::Failed);
                 } else if elapsed > disconnect_threshold {
                     if state != IceTransportState::Disconnected {
-                        let _ = inner.state.send(IceTransportState::Disconnected);
+                        inner.set_state_unless_closed(IceTransportState::Disconnected);
                     }
                 } else if state == IceTransportState::Disconnected {
-                    let _ = inner.state.send(IceTransportState::Connected);
+                    inner.set_state_unless_closed(IceTransportState::Connected);
                 }
             }
 
@@ -1210,7 +1226,7 @@ impl IceTransport {
             let _ = self.inner.selected_socket.send(Some(socket.clone()));
             publish_selected_rtcp_socket(&self.inner, Some(socket));
         }
-        let _ = self.inner.state.send(IceTransportState::Connected);
+        self.inner.set_state_unless_closed(IceTransportState::Connected);
         Ok(())
     }
 
@@ -1242,6 +1258,7 @@ impl IceTransport {
 
         // Store the socket
         self.inner.gatherer.sockets.lock().push(socket.clone());
+        self.inner.gatherer.release_sockets_if_stopped();
 
         // Register the socket wrapper for the read loop (handled by runner)
         let _ = self
@@ -1335,7 +1352,7 @@ impl IceTransport {
             .inner
             .selected_rtcp_socket
             .send(Some(IceSocketWrapper::Udp(rtcp_socket)));
-        let _ = self.inner.state.send(IceTransportState::Connected);
+        self.inner.set_state_unless_closed(IceTransportState::Connected);
 
         Ok(cand_addr)
     }
@@ -1366,6 +1383,7 @@ impl IceTransport {
         let socket = Arc::new(socket);
 
         self.inner.gatherer.sockets.lock().push(socket.clone());
+        self.inner.gatherer.release_sockets_if_stopped();
         let _ = self
             .inner
             .gatherer
@@ -1473,7 +1491,7 @@ impl IceTransport {
             let _ = self.inner.selected_socket.send(Some(socket.clone()));
             publish_selected_rtcp_socket(&self.inner, Some(socket));
         }
-        let _ = self.inner.state.send(IceTransportState::Connected);
+        self.inner.set_state_unless_closed(IceTransportState::Connected);
     }
 
     /// Best-effort explicit destruction of all TURN allocations (RFC 5766 §7.4).
@@ -1524,15 +1542,11 @@ impl IceTransport {
         let _ = self.inner.selected_rtcp_socket.send(None);
         let _ = self.inner.selected_pair_notifier.send(None);
         *self.inner.selected_pair.lock() = None;
-        self.inner.gatherer.sockets.lock().clear();
-        self.inner.gatherer.tcp_listeners.lock().clear();
-        self.inner.gatherer.tcp_streams.lock().clear();
-        self.inner.gatherer.shared_tcp_regs.lock().clear();
-        self.inner.gatherer.shared_udp_regs.lock().clear();
-        self.inner.gatherer.turn_clients.lock().clear();
-        // Drop the shared-UDP handle so the demux port's per-session state is
+        // (the flag first: a task that stores a socket from now on releases it again itself)
+        self.inner.gatherer.stopped.store(true, Ordering::SeqCst);
+        // Also drops the shared-UDP handle so the demux port's per-session state is
         // released immediately instead of waiting for Arc<IceTransportInner>.
-        *self.inner.gatherer.shared_udp_socket.lock() = None;
+        self.inner.gatherer.release_sockets();
     }
 
     /// Force the ICE transport into a specific state (test-only).
@@ -1562,7 +1576,7 @@ impl IceTransport {
             let _ = self.inner.selected_socket.send(Some(socket.clone()));
             publish_selected_rtcp_socket(&self.inner, Some(socket));
         }
-        let _ = self.inner.state.send(IceTransportState::Connected);
+        self.inner.set_state_unless_closed(IceTransportState::Connected);
     }
 
     pub fn config(&self) -> &RtcConfiguration {
@@ -1882,7 +1896,7 @@ async fn perform_connectivity_checks_async(inner: Arc<IceTransportInner>) {
 
     if role == IceRole::Controlling {
         // Signal Connected so the PeerConnection starts waiting for nomination_complete.
-        let _ = inner.state.send(IceTransportState::Connected);
+        inner.set_state_unless_closed(IceTransportState::Connected);
 
         // Launch ALL nomination checks in parallel, but select the
         // highest-priority pair that succeeds — not merely the first one to
@@ -1992,7 +2006,7 @@ async fn perform_connectivity_checks_async(inner: Arc<IceTransportInner>) {
                 successful_pairs.len()
             );
             let _ = inner.nomination_complete.send(Some(false));
-            let _ = inner.state.send(IceTransportState::Failed);
+            inner.set_state_unless_closed(IceTransportState::Failed);
         }
     } else {
         // Controlled side: select best pair but don't nominate.
@@ -2014,7 +2028,7 @@ async fn perform_connectivity_checks_async(inner: Arc<IceTransportInner>) {
             let _ = inner.selected_socket.send(Some(socket.clone()));
             publish_selected_rtcp_socket(&inner, Some(socket));
         }
-        let _ = inner.state.send(IceTransportState::Connected);
+        inner.set_state_unless_closed(IceTransportState::Connected);
         if pair.local.transport == "tcp" {
             let _ = inner.nomination_complete.send(Some(true));
         }
@@ -2137,7 +2151,7 @@ async fn complete_controlled_inbound_tcp_nomination(
         *inner.selected_pair.lock() = Some(pair.clone());
         let _ = inner.selected_pair_notifier.send(Some(pair.clone()));
         publish_selected_socket(&inner, &pair, Some(sender));
-        let _ = inner.state.send(IceTransportState::Connected);
+        inner.set_state_unless_closed(IceTransportState::Connected);
     } else {
         debug!(
             "Inbound TCP nomination: synthesizing pair for {} -> {}",
@@ -2158,7 +2172,7 @@ async fn complete_controlled_inbound_tcp_nomination(
             *inner.selected_pair.lock() = Some(pair.clone());
             let _ = inner.selected_pair_notifier.send(Some(pair.clone()));
             publish_selected_socket(&inner, &pair, Some(sender));
-            let _ = inner.state.send(IceTransportState::Connected);
+            inner.set_state_unless_closed(IceTransportState::Connected);
         } else {
             let _ = inner.selected_socket.send(Some(sender.clone()));
             publish_selected_rtcp_socket(&inner, Some(sender.clone()));
@@ -2238,6 +2252,7 @@ async fn bind_direct_rtcp_socket(
     let local_rtcp_addr = rtcp.local_addr()?;
     let rtcp = Arc::new(rtcp);
     inner.gatherer.sockets.lock().push(rtcp.clone());
+    inner.gatherer.release_sockets_if_stopped();
     let _ = inner
         .gatherer
         .socket_tx
@@ -2604,7 +2619,7 @@ async fn handle_stun_request(
                         pair.local.address, pair.remote.address
                     );
                 }
-                let _ = inner.state.send(IceTransportState::Connected);
+                inner.set_state_unless_closed(IceTransportState::Connected);
                 let _ = inner.nomination_complete.send(Some(true));
             } else {
                 debug!(
@@ -3500,6 +3515,12 @@ struct IceGatherer {
     transport_inner: Arc<parking_lot::Mutex<Option<std::sync::Weak<IceTransportInner>>>>,
     turn_clients: Arc<parking_lot::Mutex<HashMap<SocketAddr, Arc<TurnClient>>>>,
     upnp_mappers: Arc<parking_lot::Mutex<Vec<UpnpPortMapper>>>,
+    /// Set by `IceTransport::stop()` before it empties the tables above. A gathering or
+    /// connectivity-check task that was still binding / connecting / allocating at that
+    /// moment stores its socket afterwards; it then releases everything again
+    /// (`release_sockets_if_stopped`), or the closed transport would keep that socket open
+    /// for as long as the object lives.
+    stopped: Arc<std::sync::atomic::AtomicBool>,
     config: RtcConfiguration,
     candidate_tx: broadcast::Sender<IceCandidate>,
     socket_tx: tokio::sync::mpsc::UnboundedSender<IceSocketWrapper>,
@@ -3526,6 +3547,7 @@ impl IceGatherer {
             transport_inner: Arc::new(parking_lot::Mutex::new(None)),
             turn_clients: Arc::new(parking_lot::Mutex::new(HashMap::new())),
             upnp_mappers: Arc::new(parking_lot::Mutex::new(Vec::new())),
+            stopped: Arc::new(std::sync::atomic::AtomicBool::new(false)),
             config,
             candidate_tx,
             socket_tx,
@@ -3695,6 +3717,26 @@ impl IceGatherer {
 
     fn store_tcp_stream(&self, local_addr: SocketAddr, wrapper: IceSocketWrapper) {
         self.tcp_streams.lock().insert(local_addr, wrapper);
+        self.release_sockets_if_stopped();
+    }
+
+    /// Empties every socket table (what `IceTransport::stop()` does).
+    fn release_sockets(&self) {
+        self.sockets.lock().clear();
+        self.tcp_listeners.lock().clear();
+        self.tcp_streams.lock().clear();
+        self.shared_tcp_regs.lock().clear();
+        self.shared_udp_regs.lock().clear();
+        self.turn_clients.lock().clear();
+        *self.shared_udp_socket.lock() = None;
+    }
+
+    /// Called after a socket has been stored: if the transport was stopped meanwhile, the
+    /// tables have been emptied already and must be emptied again.
+    fn release_sockets_if_stopped(&self) {
+        if self.stopped.load(Ordering::SeqCst) {
+            self.release_sockets();
+        }
     }
 
     #[instrument(skip(self))]
@@ -3811,9 +3853,11 @@ impl IceGatherer {
         let (local_addr, handle, registration) = shared_udp::acquire(bind_addr, ufrag).await?;
 
         self.shared_udp_regs.lock().push(registration);
+        self.release_sockets_if_stopped();
 
         let wrapper = IceSocketWrapper::SharedUdp(Arc::new(handle));
         *self.shared_udp_socket.lock() = Some(wrapper.clone());
+        self.release_sockets_if_stopped();
         let _ = self.socket_tx.send(wrapper);
 
         // Derive the advertised candidate address (mirror the per-IP path).
@@ -3898,6 +3942,8 @@ impl IceGatherer {
                     if let Ok(addr) = socket.local_addr() {
                         let socket = Arc::new(socket);
                         self.sockets.lock().push(socket.clone());
+            self.release_sockets_if_stopped();
+                        self.release_sockets_if_stopped();
                         let _ = self.socket_tx.send(IceSocketWrapper::Udp(socket));
 
                         if let Some(ext_ip) = &self.config.external_ip
@@ -3945,6 +3991,8 @@ impl IceGatherer {
                         if let Ok(addr) = listener.local_addr() {
                             let listener = Arc::new(listener);
                             self.tcp_listeners.lock().push(listener.clone());
+                        self.release_sockets_if_stopped();
+                            self.release_sockets_if_stopped();
                             let _ = self.socket_tx.send(IceSocketWrapper::TcpListener(listener));
 
                             let tcp_type = TcpType::Passive;
@@ -4058,6 +4106,7 @@ impl IceGatherer {
                 match shared_tcp::acquire(addr, ufrag, Arc::downgrade(&inner)).await {
                     Ok((local_addr, registration)) => {
                         self.shared_tcp_regs.lock().push(registration);
+                        self.release_sockets_if_stopped();
                         self.push_tcp_passive_candidate(local_addr, ip);
                         break;
                     }
@@ -4078,6 +4127,7 @@ impl IceGatherer {
                         };
                         let listener = Arc::new(listener);
                         self.tcp_listeners.lock().push(listener.clone());
+                        self.release_sockets_if_stopped();
                         let _ = self.socket_tx.send(IceSocketWrapper::TcpListener(listener));
 
                         self.push_tcp_passive_candidate(local_addr, ip);
@@ -4351,6 +4401,7 @@ impl IceGatherer {
         if let Some(mapped) = mapped {
             let socket = Arc::new(socket);
             self.sockets.lock().push(socket.clone());
+            self.release_sockets_if_stopped();
             let _ = self.socket_tx.send(IceSocketWrapper::Udp(socket));
             return Ok(Some(IceCandidate::server_reflexive(local_addr, mapped, 1)));
         }
@@ -4375,6 +4426,7 @@ impl IceGatherer {
         self.turn_clients
             .lock()
             .insert(relayed_addr, client.clone());
+        self.release_sockets_if_stopped();
         let _ = self
             .socket_tx
             .send(IceSocketWrapper::Turn(client, relayed_addr));
